@@ -1,12 +1,15 @@
 """C13 - conformer selection contract (model M5 = Model/Conformer.v, theorems in Properties/C13.v).
 
 Theorem-backed (for every energy list, every RMSD oracle, every sorting permutation, every option value and every history of
-molecules): order by energy, pairwise separation, energy window, count <= first, lowest first, reported energies / RMSD matrix
-are those of the returned conformers, maximality, generator reuse.  Tied to the code by streams (a), (b), (d) below.
-Tested only (RDKit owns them; stream (c)): embedding + minimisation reproduce under a seed, input molecule untouched,
-heavy-atom graph and stereo preserved, wrapper consistency."""
+molecules): order by energy, pairwise separation, energy window, count <= first and <= max_conformers, lowest first, reported
+energies / RMSD matrix are those of the returned conformers, maximality, generator reuse.  Tied to the code by the streams
+`synthetic`, `options`, `real-filter`, `pipeline`, `reuse` (each compares the Coq model, evaluated by vm_compute, with the code).
+Tested only (RDKit owns them): embedding + minimisation reproduce under a seed, input molecule untouched, heavy-atom graph and
+stereo preserved, wrapper consistency.
+
+Every case is built from a JSON-able parameter dict by a `make_<stream>` function; `run` draws the parameters, `replay`
+re-runs the recorded ones on the implementation and on the model."""
 import json
-from fractions import Fraction
 
 import numpy as np
 
@@ -17,6 +20,7 @@ IMPORTS = ['From Coq Require Import QArith.', 'From E3FP Require Import Base.Pre
 GRID = [0, 0.25, 0.5, 0.75, 1.0, 1.5, 2.0]
 TOL_E = '(Qmake 1 1000000000)'
 TOL_R = '(Qmake 1 10000)'
+SYM_TOL = 1e-4          # assumed symmetry of GetBestRMS, checked on every real pool
 
 
 def _attempt(f):
@@ -27,19 +31,43 @@ def _attempt(f):
     except TypeError:
         return ('err', 'EType')
     except RuntimeError:
-        return ('err', 'EOther')
+        return ('err', 'EOther')           # the model's `Raises EOther`: "No conformers generated"
+    except Exception as e:                 # not an `err` constructor: the comparison fails loudly
+        return ('err', 'EUnexpected_' + type(e).__name__)
 
 
 def _optq(x):
     return 'None' if x is None else '(Some %s)' % cg.qlit(x)
 
 
-# --------------------------------------------------------------------------- (b) synthetic oracles
-def synth_case(rng, G, k_choices):
-    k = rng.choice(k_choices)
-    smiles = 'CCCCO'
-    mol = cg.embed_pool(smiles, k, minimise=False)
-    k = mol.GetNumConformers()
+def _mods():
+    import e3fp.conformer.generator as G
+    import e3fp.conformer.generate as GEN
+    from e3fp.conformer import util as U
+    return G, GEN, U
+
+
+class Made(object):
+    """What a make_<stream> function returns."""
+
+    def __init__(self, payload):
+        self.payload = payload
+        self.cases = []          # (sub key, bool expr, model expr)
+        self.fails = []          # (what, finding key, extra payload)
+        self.skips = []          # reasons why (part of) the case is not compared
+        self.stats = {}
+        self.nontrivial = False
+
+    def case(self, sub, expr, model):
+        self.cases.append((sub, expr, model))
+
+    def fail(self, what, key, **extra):
+        self.fails.append((what, key, extra))
+
+
+# --------------------------------------------------------------------------- synthetic oracles
+def draw_synth(rng):
+    k = rng.choice([1, 2, 3, 3, 4, 4, 5, 6, 8, 10, 18, 24])
     ties = rng.random() < 0.4
     E = [rng.choice(GRID) * rng.choice([1, 1, 2]) + (0 if ties else (i + 1) / 1024.0) for i in range(k)]
     if not ties:
@@ -54,52 +82,61 @@ def synth_case(rng, G, k_choices):
         for a in range(k):
             for b in range(a):
                 T[a][b] = T[b][a]
-    cutoff_arg = rng.choice([None, 0, 0.25, 0.25, 0.5, 0.5, 0.75, 1.0, 1.5, -2.0])
-    ediff_arg = rng.choice([None, None, 0, 0.25, 0.5, 1.0, 2.0, 2.0, 4.0, -3])
-    fc = rng.choice([-1, 1, 2, 3, 3, 4, max(1, k - 1), max(1, k - 1), k, k, k + 1, 50, 50])
-    return {'smiles': smiles, 'k': k, 'E': E, 'T': T, 'cutoff_arg': cutoff_arg, 'ediff_arg': ediff_arg, 'first_conformers': fc,
+    # conformer ids: positions, or something else entirely (the code must go through GetId())
+    how = rng.choice(['positions', 'positions', 'shifted', 'scattered'])
+    ids = list(range(k)) if how == 'positions' else [i + 7 for i in range(k)] if how == 'shifted' else rng.sample(range(3 * k + 5), k)
+    return {'smiles': 'CCCCO', 'k': k, 'E': E, 'T': T, 'conf_ids': ids,
+            'cutoff_arg': rng.choice([None, 0, 0.25, 0.25, 0.5, 0.5, 0.75, 1.0, 1.5, -2.0]),
+            'ediff_arg': rng.choice([None, None, 0, 0.25, 0.5, 1.0, 2.0, 2.0, 4.0, -3]),
+            'first_conformers': rng.choice([-1, 1, 2, 3, 3, 4, max(1, k - 1), max(1, k - 1), k, k, k + 1, 50, 50]),
             'ties': ties, 'symmetric': sym}
 
 
-def run_synth(G, c):
-    """Drive the real filter_conformers with the two oracle calls replaced (harness side only)."""
+def _renumber(mol, ids):
+    confs = list(mol.GetConformers())
+    for c, i in zip(confs, ids):
+        c.SetId(10 ** 6 + i)
+    for c in mol.GetConformers():
+        c.SetId(c.GetId() - 10 ** 6)
+
+
+def make_synth(c):
+    """filter_conformers with the two oracle calls replaced (harness side only), against filter_core / filter_conformers."""
+    G, _, _ = _mods()
+    md = Made(dict(c, stream='synthetic'))
     mol = cg.embed_pool(c['smiles'], c['k'], minimise=False)
+    if mol.GetNumConformers() != c['k']:
+        md.skips.append('pool-size-differs')
+        return md
+    _renumber(mol, c['conf_ids'])
+    pos_of = {i: p for p, i in enumerate(c['conf_ids'])}
     before = [np.array(cf.GetPositions()) for cf in mol.GetConformers()]
     heavy = [a.GetIdx() for a in mol.GetAtoms() if a.GetAtomicNum() > 1]
     g = G.ConformerGenerator(num_conf=5, rmsd_cutoff=c['cutoff_arg'], max_energy_diff=c['ediff_arg'])
     g.first_conformers = c['first_conformers']
-    E = c['E']
+    E, T = c['E'], c['T']
     g.get_conformer_energies = lambda m: np.array(E, dtype=float)
     calls = []
-    with cg.patched_allchem(GetBestRMS=cg.table_oracle(c['T'], calls)):
+
+    def oracle(prb, ref, prb_id, ref_id, *a, **k):
+        calls.append((pos_of[int(prb_id)], pos_of[int(ref_id)]))
+        return float(T[pos_of[int(prb_id)]][pos_of[int(ref_id)]])
+    with cg.patched_allchem(GetBestRMS=oracle):
         new, acc, en, rm = g.filter_conformers(mol)
     acc = [int(x) for x in acc]
-    # the returned molecule carries the accepted conformers, in order (heavy atoms; hydrogens are removed by the code)
-    copied_ok = new.GetNumConformers() == len(acc) and [cf.GetId() for cf in new.GetConformers()] == list(range(len(acc)))
-    if copied_ok:
-        for i, a in enumerate(acc):
-            if not np.array_equal(np.array(new.GetConformer(i).GetPositions()), before[a][heavy]):
-                copied_ok = False
-    return g, acc, [float(x) for x in en], [[float(x) for x in r] for r in rm], calls, copied_ok
-
-
-def synth_expr(c, g, acc, en, rm):
-    order = [int(x) for x in np.argsort(np.array(c['E'], dtype=float))]
+    en = [float(x) for x in en]
+    rm = [[float(x) for x in r] for r in rm]
+    md.payload['impl'] = {'accepted': acc, 'energies': en, 'rmsds': rm}
+    md.payload['resolved'] = {'rmsd_cutoff': g.rmsd_cutoff, 'max_energy_diff': g.max_energy_diff}
+    order = [int(x) for x in np.argsort(np.array(E, dtype=float))]
     opts = cg.fopts_lit(c['first_conformers'], g.max_energy_diff, g.rmsd_cutoff)
-    core_m = 'filter_core (table_rmsd %s) %s %s %s' % (cg.qmat(c['T']), cg.qlist(c['E']), opts, cg.natlist(order))
-    expr = 'out_eqb (%s) %s' % (core_m, cg.out_lit(acc, en, rm))
-    model = core_m
+    model = 'filter_core (table_rmsd %s) %s %s %s' % (cg.qmat(T), cg.qlist(E), opts, cg.natlist(order))
+    expr = 'out_eqb (%s) %s' % (model, cg.out_lit(acc, en, rm))
     if not c['ties']:
-        m2 = 'filter_conformers (table_rmsd %s) %s %s' % (cg.qmat(c['T']), cg.qlist(c['E']), opts)
-        expr = '(%s) && out_eqb (%s) %s' % (expr, m2, cg.out_lit(acc, en, rm))
-    return expr, model
-
-
-def direct_contract(c, g, acc, en, rm):
-    """The property's clauses evaluated directly on the implementation's output (used when something diverges and as a
-    second, model-free check): returns a list of violated clause names."""
+        expr = '(%s) && out_eqb (filter_conformers (table_rmsd %s) %s %s) %s' % (expr, cg.qmat(T), cg.qlist(E), opts, cg.out_lit(acc, en, rm))
+    md.case('', expr, model)
+    # the clauses of the property directly on the implementation's output (model-free)
     bad = []
-    E, T = c['E'], c['T']
     if any(en[i] > en[i + 1] for i in range(len(en) - 1)):
         bad.append('sorted')
     if en != [E[a] for a in acc]:
@@ -114,15 +151,94 @@ def direct_contract(c, g, acc, en, rm):
         bad.append('window')
     for i in range(len(acc)):
         for j in range(len(acc)):
-            want = 0.0 if i == j else T[acc[min(i, j)]][acc[max(i, j)]]
-            if rm[i][j] != want:
+            if rm[i][j] != (0.0 if i == j else T[acc[min(i, j)]][acc[max(i, j)]]):
                 bad.append('rmsd_reported')
             if i < j and T[acc[i]][acc[j]] < g.rmsd_cutoff:
                 bad.append('far')
-    return sorted(set(bad))
+    for v in sorted(set(bad)):
+        md.fail('filter_conformers output violates the contract directly (%s)' % v, 'contract:' + v)
+    ok = new.GetNumConformers() == len(acc) and [cf.GetId() for cf in new.GetConformers()] == list(range(len(acc)))
+    if ok:
+        ok = all(np.array_equal(np.array(new.GetConformer(i).GetPositions()), before[a][heavy]) for i, a in enumerate(acc))
+    if not ok:
+        md.fail('returned molecule does not carry the accepted conformers in order', 'contract:conformers-copied')
+    if any(a not in acc for a, _ in calls):
+        md.fail('GetBestRMS probe is not an accepted conformer', 'contract:oracle-orientation')
+    rej = {'window': 0, 'rmsd': 0, 'first': 0}
+    for r in range(c['k']):
+        if r not in acc:
+            if g.max_energy_diff != -1.0 and E[r] > E[acc[0]] + g.max_energy_diff:
+                rej['window'] += 1
+            elif any(T[a][r] < g.rmsd_cutoff for a in acc):
+                rej['rmsd'] += 1
+            else:
+                rej['first'] += 1
+    md.stats = {'rej': rej, 'n_acc': len(acc)}
+    md.nontrivial = 1 < len(acc) < c['k']
+    return md
 
 
-# --------------------------------------------------------------------------- (a)/(c) real RDKit runs
+# --------------------------------------------------------------------------- constructor and option state over histories
+_CHAINS = {}
+
+
+def chain_mol(n):
+    from rdkit import Chem
+    from rdkit.Chem import AllChem
+    if n not in _CHAINS:
+        m = Chem.MolFromSmiles(cg.CHAINS[n])
+        _CHAINS[n] = (m, int(AllChem.CalcNumRotatableBonds(Chem.AddHs(m))))
+    return _CHAINS[n]
+
+
+def draw_options(rng):
+    return {'nc': rng.choice([-1, -1, -1, -1, 1, 2, 3, 3, 7, 12, 20, 0, -2]), 'f': rng.choice([-1, -1, -1, -1, 1, 2, 2, 5, 10, 60, 0, -3]),
+            'cut': rng.choice([None, 0, 0.5, 1.25, -1.0, -0.5]), 'ed': rng.choice([None, 0, 2.5, -1.0, -4]),
+            'pm': rng.choice([1, 1, 1, 1, 2, 2, 3, 3, 5, 8, 0, -1]),
+            'hist': [rng.choice(sorted(cg.CHAINS)) for _ in range(rng.choice([1, 2, 3, 5]))]}
+
+
+def make_options(p):
+    G, _, _ = _mods()
+    md = Made(dict(p, stream='options'))
+    nc, f, cut, ed, pm = p['nc'], p['f'], p['cut'], p['ed'], p['pm']
+    r = _attempt(lambda: G.ConformerGenerator(num_conf=nc, first=f, rmsd_cutoff=cut, max_energy_diff=ed, pool_multiplier=pm))
+    mk = 'mk_generator %s %s %s %s %s' % (core.zlit(nc), core.zlit(f), _optq(cut), _optq(ed), core.zlit(pm))
+    if r[0] == 'err':
+        md.payload['impl'] = r[1]
+        md.stats = {'ctor_error': 1}
+        md.case('', 'result_eqb ctor_obs_eqb (rbind (%s) (fun g => Ok (ctor_obs g))) (Raises %s)' % (mk, r[1]), mk)
+        return md
+    g = r[1]
+    obs0 = '(%s, %s, %s, %s, (%s, %s, %s))' % (core.zlit(g.num_conf), core.zlit(g.first), core.zlit(g.max_conformers), core.zlit(g.first_conformers),
+                                               cg.qlit(g.rmsd_cutoff), cg.qlit(g.max_energy_diff), core.zlit(g.pool_multiplier))
+    trace, asked = [], []
+
+    def fake_embed(mol, numConfs=None, **kw):
+        asked.append(int(numConfs))
+        return []
+    for n in p['hist']:
+        with cg.patched_allchem(EmbedMultipleConfs=fake_embed):
+            g.embed_molecule(chain_mol(n)[0])
+        trace.append((g.num_conf, g.first, g.max_conformers, g.first_conformers, asked[-1]))
+    nrots = [chain_mol(n)[1] for n in p['hist']]
+    md.payload['nrot_history'] = nrots
+    md.payload['impl_trace(num_conf,first,max_conformers,first_conformers,n_confs)'] = trace
+    tr_lit = core.listlit(['((%s, %s, %s, %s), %s)' % tuple(core.zlit(x) for x in t) for t in trace])
+    rs = core.zlist(nrots)
+    md.case('', 'match %s with Ok g => ctor_obs_eqb (ctor_obs g) %s && trace_eqb (resolve_trace g %s) %s | Raises _ => false end' % (mk, obs0, rs, tr_lit),
+            'match %s with Ok g => resolve_trace g %s | Raises _ => [] end' % (mk, rs))
+    # the reuse clause directly: the last molecule through a fresh object resolves the same values
+    g2 = G.ConformerGenerator(num_conf=nc, first=f, rmsd_cutoff=cut, max_energy_diff=ed, pool_multiplier=pm)
+    with cg.patched_allchem(EmbedMultipleConfs=fake_embed):
+        g2.embed_molecule(chain_mol(p['hist'][-1])[0])
+    if (g2.max_conformers, g2.first_conformers, asked[-1]) != (trace[-1][2], trace[-1][3], trace[-1][4]):
+        md.fail('resolved options depend on the molecules processed before', 'reuse:resolved-options')
+    md.nontrivial = len(set(x >= 8 for x in nrots)) > 1 or nc != -1
+    return md
+
+
+# --------------------------------------------------------------------------- real RDKit pools
 def pool_like_impl(smiles, name, n_confs, seed, forcefield):
     """Rebuild, with RDKit only, the pool e3fp would embed and minimise for this molecule (same calls, same seed)."""
     from rdkit import Chem
@@ -142,339 +258,409 @@ def pool_like_impl(smiles, name, n_confs, seed, forcefield):
     return m
 
 
-def stable_inputs(E, T, cutoff, ediff):
-    """False when a decision of the loop lies within round-off of its threshold (then model and code may legitimately differ)."""
-    s = sorted(E)      # energies are re-measured bit-identically (checked by the exact comparison of the returned energies): order is exact
-    if cutoff != -1.0 and any(abs(T[a][b] - cutoff) < 1e-5 for a in range(len(E)) for b in range(len(E)) if a != b):
-        return False
-    if ediff != -1.0 and any(abs(e - (s[0] + ediff)) < 1e-9 for e in E):
-        return False
-    return True
+def unstable_reason(E, T, cutoff, ediff):
+    """None, or why a decision of the loop lies within round-off of its threshold (model and code may then legitimately differ).
+    Energies are re-measured bit-identically (checked by the exact comparison of the returned energies): the order is exact."""
+    n = len(E)
+    if cutoff != -1.0 and any(abs(T[a][b] - cutoff) < 1e-5 for a in range(n) for b in range(n) if a != b):
+        return 'rmsd-within-1e-5-of-cutoff'
+    if ediff != -1.0 and any(abs(e - (min(E) + ediff)) < 1e-9 for e in E):
+        return 'energy-within-1e-9-of-window-edge'
+    return None
+
+
+def asymmetry(T):
+    n = len(T)
+    return max([abs(T[a][b] - T[b][a]) for a in range(n) for b in range(n)] + [abs(T[a][a]) for a in range(n)] + [0.0])
+
+
+def _check_symmetry(md, T):
+    a = asymmetry(T)
+    md.stats['asymmetry'] = a
+    if a > SYM_TOL:
+        md.fail('GetBestRMS is not symmetric / zero on the diagonal within %g on this pool (max deviation %.3g): the assumption of accepted_far / '
+                'rmsd_reported_sym does not hold' % (SYM_TOL, a), 'assumption:getbestrms-symmetry', rmsd_table=T)
+
+
+def draw_real(rng, i):
+    name, smi = cg.MOLS[i % len(cg.MOLS)]
+    return {'molecule': name, 'smiles': smi, 'forcefield': rng.choice(['uff', 'uff', 'mmff94', 'mmff94s']), 'num_conf': rng.choice([4, 5, 6, 8]),
+            'rmsd_cutoff': rng.choice([None, 0.3, 0.5, 0.8, 1.2]), 'max_energy_diff': rng.choice([None, 0.5, 1.0, 2.0, 5.0]),
+            'first': rng.choice([-1, -1, 1, 2, 3]), 'seed': rng.randrange(1, 10 ** 6)}
+
+
+def make_real(p):
+    """filter_conformers on a pool embedded and minimised by e3fp; energies and RMSDs re-measured independently on a copy."""
+    from rdkit import Chem
+    G, _, U = _mods()
+    md = Made(dict(p, stream='real-filter'))
+    g = G.ConformerGenerator(num_conf=p['num_conf'], first=p['first'], rmsd_cutoff=p['rmsd_cutoff'], max_energy_diff=p['max_energy_diff'],
+                             forcefield=p['forcefield'], seed=p['seed'])
+    pool = g.embed_molecule(U.mol_from_smiles(p['smiles'], p['molecule']))
+    if not pool.GetNumConformers():
+        md.skips.append('embedding-returned-no-conformer')
+        return md
+    g.minimize_conformers(pool)
+    ref = Chem.Mol(pool)
+    E = cg.measure_energies(ref, p['forcefield'])
+    T = cg.measure_rmsds(ref)
+    new, acc, en, rm = g.filter_conformers(pool)
+    acc = [int(x) for x in acc]
+    md.payload.update(energies_remeasured=E, rmsd_remeasured=T,
+                      impl={'accepted': acc, 'energies': [float(x) for x in en], 'rmsds': [[float(x) for x in r] for r in rm]})
+    _check_symmetry(md, T)
+    why = unstable_reason(E, T, g.rmsd_cutoff, g.max_energy_diff)
+    if why:
+        md.skips.append(why)
+        return md
+    model = 'filter_conformers (table_rmsd %s) %s %s' % (cg.qmat(T), cg.qlist(E), cg.fopts_lit(g.first_conformers, g.max_energy_diff, g.rmsd_cutoff))
+    md.case('', 'out_close2 %s %s (%s) %s' % (TOL_E, TOL_R, model, cg.out_lit(acc, en, rm)), model)
+    md.nontrivial = 1 < len(acc) < len(E)
+    return md
+
+
+def gen_obs(mol, vals):
+    return {'smiles': cg.canon_smiles(mol), 'coords': [np.array(cf.GetPositions()).round(12).tolist() for cf in mol.GetConformers()],
+            'max_conformers': int(vals[0]), 'indices': [int(x) for x in vals[1]], 'energies': [float(x) for x in vals[2]],
+            'rmsds': np.asarray(vals[3]).tolist(), 'prop': mol.GetProp('_ConfEnergies') if mol.HasProp('_ConfEnergies') else None}
+
+
+def _kw(p):
+    return {k: p[k] for k in ('num_conf', 'first', 'pool_multiplier', 'rmsd_cutoff', 'max_energy_diff', 'forcefield', 'seed')}
+
+
+def _mk_lit(kw):
+    return 'mk_generator %s %s %s %s %s' % (core.zlit(kw['num_conf']), core.zlit(kw['first']), _optq(kw['rmsd_cutoff']), _optq(kw['max_energy_diff']),
+                                            core.zlit(kw['pool_multiplier']))
+
+
+def _pool_lit(n, E, T):
+    return '(%s, %s, %s)' % (core.zlit(n), cg.qlist(E), cg.qmat(T))
+
+
+def _res_lit(r):
+    """('ok', gen_obs) | ('err', tag) -> result (Z * out) literal."""
+    if r[0] == 'err':
+        return '(Raises %s)' % r[1]
+    o = r[1]
+    return '(Ok (%s, %s))' % (core.zlit(o['max_conformers']), cg.out_lit(o['indices'], o['energies'], o['rmsds']))
+
+
+def draw_pipeline(rng, i):
+    name, smi = cg.MOLS[(i * 7 + 3) % len(cg.MOLS)]
+    nc = rng.choice([2, 3, 4, 5])
+    return {'molecule': name, 'smiles': smi, 'forcefield': rng.choice(['uff', 'uff', 'mmff94']), 'num_conf': nc, 'pool_multiplier': rng.choice([1, 2, 3]),
+            'first': rng.choice([-1, -1, 1, 2, nc + 2]), 'rmsd_cutoff': rng.choice([None, 0.4, 0.5, 1.0]), 'max_energy_diff': rng.choice([None, 1.0, 3.0]),
+            'seed': rng.randrange(1, 10 ** 6), 'empty_pool': i % 8 == 5}
+
+
+def make_pipeline(p):
+    """generate_conformers end to end against the model's `generate` on a pool rebuilt with RDKit only, plus the clauses RDKit owns."""
+    from rdkit import Chem
+    from rdkit.Chem import AllChem
+    G, _, U = _mods()
+    md = Made(dict(p, stream='pipeline'))
+    kw = _kw(p)
+    name, smi = p['molecule'], p['smiles']
+    src = U.mol_from_smiles(smi, name)
+    nrot = int(AllChem.CalcNumRotatableBonds(Chem.AddHs(src)))
+    n_confs = p['num_conf'] * p['pool_multiplier']
+    sig0 = cg.mol_signature(src)
+    g = G.ConformerGenerator(get_values=True, sparse_rmsd=False, **kw)
+    if p.get('empty_pool'):
+        # the branch "No conformers generated": RDKit embeds nothing
+        with cg.patched_allchem(EmbedMultipleConfs=lambda *a, **k: []):
+            r = _attempt(lambda: gen_obs(*g.generate_conformers(src)))
+        md.payload['impl'] = r[1]
+        model = 'snd (tab_generate [%s] [%s] g 0%%nat)' % (core.zlit(nrot), _pool_lit(n_confs, [], []))
+        md.case('', 'match %s with Ok g => gen_result_close2 %s %s (%s) %s | Raises _ => false end' % (_mk_lit(kw), TOL_E, TOL_R, model, _res_lit(r)),
+                'match %s with Ok g => %s | Raises e => Raises e end' % (_mk_lit(kw), model))
+        if cg.mol_signature(src) != sig0:
+            md.fail('generate_conformers modified its input molecule', 'input-modified')
+        md.stats['empty_pool'] = 1
+        return md
+    mol1, v1 = g.generate_conformers(src)
+    o1 = gen_obs(mol1, v1)
+    md.payload['impl'] = {x: o1[x] for x in ('indices', 'energies', 'rmsds', 'max_conformers', 'prop')}
+    if cg.mol_signature(src) != sig0:
+        md.fail('generate_conformers modified its input molecule', 'input-modified', before=sig0, after=cg.mol_signature(src))
+    want = Chem.MolToSmiles(Chem.RemoveHs(Chem.Mol(src)), isomericSmiles=True)
+    if o1['smiles'] != want:
+        md.fail('returned molecule differs from the input (graph/stereo): %s vs %s' % (o1['smiles'], want), 'identity-changed')
+    for cf in mol1.GetConformers():
+        cp = Chem.Mol(mol1)
+        Chem.AssignStereochemistryFrom3D(cp, confId=cf.GetId(), replaceExistingTags=True)
+        if Chem.MolToSmiles(cp, isomericSmiles=True) != want:
+            md.fail('conformer %d has another stereochemistry in 3D than the input' % cf.GetId(), 'stereo-3d-changed')
+            break
+    mol2, v2 = G.ConformerGenerator(get_values=True, sparse_rmsd=False, **kw).generate_conformers(U.mol_from_smiles(smi, name))
+    o2 = gen_obs(mol2, v2)
+    if o1 != o2:
+        md.fail('two seeded runs differ', 'seed-not-reproducible', first_run=o1, second_run=o2)
+    stored = U.get_conformer_energies_from_mol(mol1)
+    if stored is None or [('%.4f' % e) for e in o1['energies']] != o1['prop'].split('|') or len(stored) != mol1.GetNumConformers():
+        md.fail('energies stored on the molecule are not the returned ones at 4 decimals', 'stored-energies')
+    T1 = cg.measure_rmsds(mol1)
+    n1 = mol1.GetNumConformers()
+    if any(abs(T1[min(a, b)][max(a, b)] - o1['rmsds'][a][b]) > 1e-4 for a in range(n1) for b in range(n1)):
+        md.fail('reported RMSD matrix is not the RMSD of the returned conformers', 'rmsd-matrix', remeasured=T1)
+    cap = min(p['first'], p['num_conf']) if p['first'] != -1 else p['num_conf']
+    if len(o1['indices']) > cap or o1['max_conformers'] != p['num_conf']:
+        md.fail('more conformers than requested (first/maximum): %d returned, cap %d' % (len(o1['indices']), cap), 'count')
+    # the model's `generate` (constructor, option resolution, pool size, filter) on a pool rebuilt without e3fp
+    pool = pool_like_impl(smi, name, n_confs, p['seed'], p['forcefield'])
+    E = cg.measure_energies(pool, p['forcefield'])
+    T = cg.measure_rmsds(pool)
+    md.payload.update(energies_remeasured=E, rmsd_remeasured=T)
+    _check_symmetry(md, T)
+    why = unstable_reason(E, T, g.rmsd_cutoff, g.max_energy_diff)
+    if why:
+        md.skips.append(why)
+    else:
+        model = 'snd (tab_generate [%s] [%s] g 0%%nat)' % (core.zlit(nrot), _pool_lit(n_confs, E, T))
+        md.case('', 'match %s with Ok g => gen_result_close2 %s %s (%s) %s | Raises _ => false end' % (_mk_lit(kw), TOL_E, TOL_R, model, _res_lit(('ok', o1))),
+                'match %s with Ok g => %s | Raises e => Raises e end' % (_mk_lit(kw), model))
+    md.stats['first_above_num_conf'] = int(p['first'] > p['num_conf'])
+    md.nontrivial = len(o1['indices']) > 1
+    return md
+
+
+def draw_reuse(rng):
+    seq = [list(cg.MOLS[rng.randrange(len(cg.MOLS))]) for _ in range(rng.choice([2, 3, 4]))]
+    if rng.random() < 0.5:
+        seq.insert(rng.randrange(len(seq) + 1), ['decane', 'CCCCCCCCCCCC'])     # 9 rotatable bonds: resolves 200 when num_conf = -1
+    nc = rng.choice([-1, 3, 4, 4])
+    p = {'num_conf': nc, 'first': rng.choice([-1, 2, 6]) if nc != -1 else 2, 'pool_multiplier': 1 if nc == -1 else rng.choice([1, 2]),
+         'rmsd_cutoff': rng.choice([0.5, 1.0]), 'max_energy_diff': rng.choice([None, 2.0]), 'forcefield': 'uff', 'seed': rng.randrange(1, 10 ** 6)}
+    p['sequence'] = seq[:2] if nc == -1 else seq     # 50/200 conformers per molecule: keep it short
+    return p
+
+
+def make_reuse(p):
+    """One generator object over a sequence of molecules: equal to a fresh object per molecule (implementation), and equal to the
+    model's generate (after_history ...) on independently rebuilt pools (explicit num_conf; the auto sizes 50/200 are left to the
+    `options` stream and to the implementation-only comparison)."""
+    from rdkit import Chem
+    from rdkit.Chem import AllChem
+    G, _, U = _mods()
+    md = Made(dict(p, stream='reuse'))
+    kw = _kw(p)
+    shared = G.ConformerGenerator(get_values=True, sparse_rmsd=False, **kw)
+    outs, nrots, pools, unstable = [], [], [], None
+    for name, smi in p['sequence']:
+        a = gen_obs(*shared.generate_conformers(U.mol_from_smiles(smi, name)))
+        b = gen_obs(*G.ConformerGenerator(get_values=True, sparse_rmsd=False, **kw).generate_conformers(U.mol_from_smiles(smi, name)))
+        if a != b:
+            md.fail('a reused generator returns something else than a fresh one for %s' % name, 'reuse:result', reused=a, fresh=b)
+        outs.append(a)
+        if p['num_conf'] != -1:
+            n_confs = p['num_conf'] * p['pool_multiplier']
+            pool = pool_like_impl(smi, name, n_confs, p['seed'], p['forcefield'])
+            E, T = cg.measure_energies(pool, p['forcefield']), cg.measure_rmsds(pool)
+            _check_symmetry(md, T)
+            unstable = unstable or unstable_reason(E, T, shared.rmsd_cutoff, shared.max_energy_diff)
+            nrots.append(int(AllChem.CalcNumRotatableBonds(Chem.AddHs(Chem.MolFromSmiles(smi)))))
+            pools.append(_pool_lit(n_confs, E, T))
+    md.payload['impl'] = [{x: o[x] for x in ('indices', 'energies', 'max_conformers')} for o in outs]
+    if p['num_conf'] == -1:
+        md.skips.append('auto-sized-pool-not-sent-to-coq')
+    elif unstable:
+        md.skips.append(unstable)
+    else:
+        nl, pl = core.zlist(nrots), core.listlit(pools)
+        for i, o in enumerate(outs):
+            hist = cg.natlist(range(i))
+            model = 'snd (tab_generate %s %s (tab_after %s %s g %s) %d%%nat)' % (nl, pl, nl, pl, hist, i)
+            md.case('step%d' % i, 'match %s with Ok g => gen_result_close2 %s %s (%s) %s | Raises _ => false end' % (_mk_lit(kw), TOL_E, TOL_R, model, _res_lit(('ok', o))),
+                    'match %s with Ok g => %s | Raises e => Raises e end' % (_mk_lit(kw), model))
+    md.nontrivial = True
+    return md
+
+
+def draw_wrapper(rng):
+    name, smi = cg.MOLS[rng.randrange(len(cg.MOLS))]
+    return {'molecule': name, 'smiles': smi, 'num_conf': rng.choice([3, 4, 5]), 'first': rng.choice([-1, 2]), 'pool_multiplier': rng.choice([1, 2]),
+            'rmsd_cutoff': rng.choice([0.4, 0.8]), 'max_energy_diff': rng.choice([None, 3.0]), 'forcefield': rng.choice(['uff', 'mmff94']),
+            'seed': rng.randrange(1, 10 ** 6)}
+
+
+def make_wrapper(p):
+    from rdkit.Chem import AllChem
+    G, GEN, U = _mods()
+    md = Made(dict(p, stream='wrapper'))
+    kw = _kw(p)
+    name, smi = p['molecule'], p['smiles']
+    src = U.mol_from_smiles(smi, name)
+    sig0 = cg.mol_signature(src)
+    r = GEN.generate_conformers(src, standardise=False, save=False, **kw)
+    if r is False:
+        md.fail('wrapper generate_conformers returned False', 'wrapper:false')
+        return md
+    mol, rname, nrot, maxc, idx, en, sparse = r
+    full_mol, v = G.ConformerGenerator(get_values=True, sparse_rmsd=False, **kw).generate_conformers(U.mol_from_smiles(smi, name))
+    full = gen_obs(full_mol, v)
+    stored = U.get_conformer_energies_from_mol(mol)
+    md.payload['impl'] = {'indices': [int(x) for x in idx], 'energies': [float(x) for x in en], 'sparse_rmsd': [float(x) for x in sparse]}
+    problems = []
+    if rname != name:
+        problems.append('name')
+    if nrot != AllChem.CalcNumRotatableBonds(src):
+        problems.append('nrot')
+    if maxc != kw['num_conf']:
+        problems.append('max_conformers')
+    if [int(x) for x in idx] != full['indices'] or [float(x) for x in en] != full['energies']:
+        problems.append('indices/energies differ from the generator run with the same seed')
+    if mol.GetNumConformers() != len(idx) or len(en) != len(idx):
+        problems.append('lengths')
+    if stored is None or ['%.4f' % e for e in en] != ['%.4f' % e for e in stored]:
+        problems.append('stored energies')
+    if cg.mol_signature(src) != sig0:
+        problems.append('input modified')
+    if problems:
+        md.fail('wrapper result inconsistent: ' + '; '.join(problems), 'wrapper:' + problems[0])
+    md.case('', 'q_list_eqb (triu %s 1%%nat) %s' % (cg.qmat(full['rmsds']), cg.qlist([float(x) for x in sparse])), 'triu %s 1%%nat' % cg.qmat(full['rmsds']))
+    md.nontrivial = len(idx) > 2
+    return md
+
+
+MAKERS = {'synthetic': make_synth, 'options': make_options, 'real-filter': make_real, 'pipeline': make_pipeline, 'reuse': make_reuse,
+          'wrapper': make_wrapper}
+PARAM_KEYS = {'synthetic': ('smiles', 'k', 'E', 'T', 'conf_ids', 'cutoff_arg', 'ediff_arg', 'first_conformers', 'ties', 'symmetric'),
+              'options': ('nc', 'f', 'cut', 'ed', 'pm', 'hist'),
+              'real-filter': ('molecule', 'smiles', 'forcefield', 'num_conf', 'rmsd_cutoff', 'max_energy_diff', 'first', 'seed'),
+              'pipeline': ('molecule', 'smiles', 'forcefield', 'num_conf', 'pool_multiplier', 'first', 'rmsd_cutoff', 'max_energy_diff', 'seed', 'empty_pool'),
+              'reuse': ('num_conf', 'first', 'pool_multiplier', 'rmsd_cutoff', 'max_energy_diff', 'forcefield', 'seed', 'sequence'),
+              'wrapper': ('molecule', 'smiles', 'num_conf', 'first', 'pool_multiplier', 'rmsd_cutoff', 'max_energy_diff', 'forcefield', 'seed')}
 
 
 def run(ctx):
     ok, res = core.proof_step(ctx)
-    import e3fp.conformer.generator as G
-    import e3fp.conformer.generate as GEN
-    from e3fp.conformer.util import mol_from_smiles, get_conformer_energies_from_mol
-    from rdkit import Chem
-    from rdkit.Chem import AllChem
     rng = ctx.rng
     cases, payloads, mexpr = [], {}, {}
-    found_input = False
-    dist = {'synthetic': 0, 'synthetic_ties': 0, 'synthetic_asymmetric_oracle': 0, 'synthetic_unstable_argsort_sizes': 0,
-            'accepted_count_hist': {}, 'reject_first': 0, 'reject_window': 0, 'reject_rmsd': 0,
-            'resolution_histories': 0, 'ctor_errors_expected': 0, 'real_filter': 0, 'real_unstable_skipped': 0,
-            'real_pipeline': 0, 'reuse_sequences': 0, 'wrapper': 0, 'first_above_num_conf': 0, 'by_forcefield': {}}
+    found = [False]
+    dist = {'cases_by_stream': {}, 'params_by_stream': {}, 'skipped': {}, 'synthetic_ties': 0, 'synthetic_asymmetric_oracle': 0,
+            'synthetic_unstable_argsort_sizes': 0, 'synthetic_ids_not_positions': 0, 'accepted_count_hist': {}, 'reject_first': 0, 'reject_window': 0,
+            'reject_rmsd': 0, 'ctor_errors_expected': 0, 'empty_pool_runs': 0, 'first_above_num_conf': 0, 'real_pools_measured': 0,
+            'getbestrms_max_asymmetry': 0.0, 'getbestrms_asymmetry_violations': 0, 'by_forcefield': {}}
 
-    def add_case(key, expr, payload, model):
-        cases.append((key, expr))
-        payloads[key] = payload
-        mexpr[key] = model
+    def bump(d, k, n=1):
+        d[k] = d.get(k, 0) + n
 
-    # ---------------------------------------------------------------- (b) synthetic energies and RMSD tables
-    k_choices = [1, 2, 3, 3, 4, 4, 5, 6, 8, 10, 18, 24]
+    def take(stream, tag, params, sample=False):
+        md = MAKERS[stream](params)
+        bump(dist['params_by_stream'], stream)
+        for why in md.skips:
+            bump(dist['skipped'], '%s: %s' % (stream, why))
+        for sub, expr, model in md.cases:
+            key = '%s/%s%s' % (stream, tag, ('/' + sub) if sub else '')
+            cases.append((key, expr))
+            payloads[key] = md.payload
+            mexpr[key] = model
+            bump(dist['cases_by_stream'], stream)
+        for what, fk, extra in md.fails:
+            found[0] = True
+            ctx.fail(what, dict(md.payload, **extra), finding_key=fk)
+        if 'asymmetry' in md.stats:
+            dist['real_pools_measured'] += 1
+            dist['getbestrms_max_asymmetry'] = max(dist['getbestrms_max_asymmetry'], md.stats['asymmetry'])
+            dist['getbestrms_asymmetry_violations'] += md.stats['asymmetry'] > SYM_TOL
+        ctx.count((stream, json.dumps({k: params.get(k) for k in PARAM_KEYS[stream]}, sort_keys=True, default=str)), md.nontrivial and bool(md.cases))
+        if sample and md.cases:
+            ctx.sample({'case': '%s/%s' % (stream, tag), 'parameters': {k: params.get(k) for k in PARAM_KEYS[stream]},
+                        'implementation': md.payload.get('impl'), 'model_check': md.cases[0][1][:300]})
+        return md
+
     for i in range(ctx.n(2000, 20000)):
-        c = synth_case(rng, G, k_choices)
-        g, acc, en, rm, calls, copied_ok = run_synth(G, c)
-        expr, model = synth_expr(c, g, acc, en, rm)
-        key = 'syn/%d' % i
-        pl = dict(c, stream='synthetic', impl={'accepted': acc, 'energies': en, 'rmsds': rm},
-                  resolved={'rmsd_cutoff': g.rmsd_cutoff, 'max_energy_diff': g.max_energy_diff})
-        add_case(key, expr, pl, model)
-        viol = direct_contract(c, g, acc, en, rm)
-        if viol:
-            found_input = True
-            ctx.fail('filter_conformers output violates the contract directly (%s)' % ','.join(viol), pl, finding_key='contract:' + viol[0])
-        if not copied_ok:
-            found_input = True
-            ctx.fail('returned molecule does not carry the accepted conformers in order', pl, finding_key='contract:conformers-copied')
-        if any(a not in acc[:len(acc)] for a, _ in calls):
-            found_input = True
-            ctx.fail('GetBestRMS probe is not an accepted conformer', pl, finding_key='contract:oracle-orientation')
-        dist['synthetic'] += 1
+        c = draw_synth(rng)
+        md = take('synthetic', str(i), c, sample=i < 2)
         dist['synthetic_ties'] += c['ties']
         dist['synthetic_asymmetric_oracle'] += (not c['symmetric'])
         dist['synthetic_unstable_argsort_sizes'] += (c['k'] > 16 and c['ties'])
-        dist['accepted_count_hist'][len(acc)] = dist['accepted_count_hist'].get(len(acc), 0) + 1
-        for r in range(c['k']):
-            if r not in acc:
-                e0 = c['E'][acc[0]]
-                if g.max_energy_diff != -1.0 and c['E'][r] > e0 + g.max_energy_diff:
-                    dist['reject_window'] += 1
-                elif any(c['T'][a][r] < g.rmsd_cutoff for a in acc):
-                    dist['reject_rmsd'] += 1
-                else:
-                    dist['reject_first'] += 1
-        nontriv = 1 < len(acc) < c['k']
-        ctx.count(('syn', json.dumps(c, sort_keys=True)), nontriv)
-        if i < 2:
-            ctx.sample({'case': key, 'input': {x: c[x] for x in ('k', 'E', 'T', 'cutoff_arg', 'ediff_arg', 'first_conformers')},
-                        'implementation': pl['impl'], 'model_check': expr[:300]})
-
-    # ---------------------------------------------------------------- (d) option state over histories of molecules
-    chain_mols = {}
-    for n, smi in cg.CHAINS.items():
-        m = Chem.MolFromSmiles(smi)
-        chain_mols[n] = (m, int(AllChem.CalcNumRotatableBonds(Chem.AddHs(m))))
+        dist['synthetic_ids_not_positions'] += c['conf_ids'] != list(range(c['k']))
+        if md.stats:
+            bump(dist['accepted_count_hist'], md.stats['n_acc'])
+            for k, v in md.stats['rej'].items():
+                dist['reject_' + k] += v
     for i in range(ctx.n(150, 1500)):
-        nc = rng.choice([-1, -1, -1, 1, 2, 3, 7, 12, 0, -2])
-        f = rng.choice([-1, -1, -1, 1, 2, 5, 10, 60, 0, -3])
-        cut = rng.choice([None, 0, 0.5, 1.25, -1.0, -0.5])
-        ed = rng.choice([None, 0, 2.5, -1.0, -4])
-        pm = rng.choice([1, 1, 1, 2, 2, 3, 5, 0, -1])
-        r = _attempt(lambda: G.ConformerGenerator(num_conf=nc, first=f, rmsd_cutoff=cut, max_energy_diff=ed, pool_multiplier=pm))
-        mk = 'mk_generator %s %s %s %s %s' % (core.zlit(nc), core.zlit(f), _optq(cut), _optq(ed), core.zlit(pm))
-        key = 'res/%d' % i
-        if r[0] == 'err':
-            dist['ctor_errors_expected'] += 1
-            add_case(key, 'result_eqb ctor_obs_eqb (rbind (%s) (fun g => Ok (ctor_obs g))) (Raises %s)' % (mk, r[1]),
-                     {'stream': 'constructor', 'args': [nc, f, cut, ed, pm], 'impl': r[1]}, mk)
-            ctx.count(('ctor', nc, f, cut, ed, pm), False)
-            continue
-        g = r[1]
-        obs0 = '(%s, %s, %s, %s, (%s, %s, %s))' % (core.zlit(g.num_conf), core.zlit(g.first), core.zlit(g.max_conformers),
-                                                   core.zlit(g.first_conformers), cg.qlit(g.rmsd_cutoff), cg.qlit(g.max_energy_diff),
-                                                   core.zlit(g.pool_multiplier))
-        hist = [rng.choice(sorted(chain_mols)) for _ in range(rng.choice([1, 2, 3, 5]))]
-        trace = []
-        asked = []
-
-        def fake_embed(mol, numConfs=None, **kw):
-            asked.append(int(numConfs))
-            return []
-        for n in hist:
-            with cg.patched_allchem(EmbedMultipleConfs=fake_embed):
-                g.embed_molecule(chain_mols[n][0])
-            trace.append((g.num_conf, g.first, g.max_conformers, g.first_conformers, asked[-1]))
-        tr_lit = core.listlit(['((%s, %s, %s, %s), %s)' % tuple(core.zlit(x) for x in t) for t in trace])
-        rs = core.zlist([chain_mols[n][1] for n in hist])
-        expr = ('match %s with Ok g => ctor_obs_eqb (ctor_obs g) %s && trace_eqb (resolve_trace g %s) %s | Raises _ => false end'
-                % (mk, obs0, rs, tr_lit))
-        add_case(key, expr, {'stream': 'resolution', 'args': [nc, f, cut, ed, pm], 'nrot_history': [chain_mols[n][1] for n in hist],
-                             'impl_trace(num_conf,first,max_conformers,first_conformers,n_confs)': trace},
-                 'match %s with Ok g => resolve_trace g %s | Raises _ => [] end' % (mk, rs))
-        # the reuse clause directly: the last molecule through a fresh object gives the same resolved values
-        g2 = G.ConformerGenerator(num_conf=nc, first=f, rmsd_cutoff=cut, max_energy_diff=ed, pool_multiplier=pm)
-        with cg.patched_allchem(EmbedMultipleConfs=fake_embed):
-            g2.embed_molecule(chain_mols[hist[-1]][0])
-        if (g2.max_conformers, g2.first_conformers, asked[-1]) != (trace[-1][2], trace[-1][3], trace[-1][4]):
-            found_input = True
-            ctx.fail('resolved options depend on the molecules processed before', payloads[key], finding_key='reuse:resolved-options')
-        dist['resolution_histories'] += 1
-        ctx.count(('res', nc, f, pm, tuple(hist)), len(set(chain_mols[n][1] >= 8 for n in hist)) > 1 or nc != -1)
-
-    # ---------------------------------------------------------------- (a) real conformers, re-measured independently
-    n_real = ctx.n(24, 180)
-    for i in range(n_real):
-        name, smi = cg.MOLS[i % len(cg.MOLS)]
-        ff = rng.choice(['uff', 'uff', 'mmff94', 'mmff94s'])
-        k = rng.choice([4, 5, 6, 8])
-        cutoff = rng.choice([None, 0.3, 0.5, 0.8, 1.2])
-        ediff = rng.choice([None, 0.5, 1.0, 2.0, 5.0])
-        first = rng.choice([-1, -1, 1, 2, 3])
-        seed = rng.randrange(1, 10 ** 6)
-        g = G.ConformerGenerator(num_conf=k, first=first, rmsd_cutoff=cutoff, max_energy_diff=ediff, forcefield=ff, seed=seed)
-        src = mol_from_smiles(smi, name)
-        pool = g.embed_molecule(src)
-        if not pool.GetNumConformers():
-            continue
-        g.minimize_conformers(pool)
-        ref = Chem.Mol(pool)
-        E = cg.measure_energies(ref, ff)
-        T = cg.measure_rmsds(ref)
-        new, acc, en, rm = g.filter_conformers(pool)
-        acc = [int(x) for x in acc]
-        pl = {'stream': 'real-filter', 'molecule': name, 'smiles': smi, 'forcefield': ff, 'num_conf': k, 'first': first, 'rmsd_cutoff': cutoff,
-              'max_energy_diff': ediff, 'seed': seed, 'energies_remeasured': E, 'rmsd_remeasured': T,
-              'impl': {'accepted': acc, 'energies': [float(x) for x in en], 'rmsds': [[float(x) for x in r] for r in rm]}}
-        dist['by_forcefield'][ff] = dist['by_forcefield'].get(ff, 0) + 1
-        if not stable_inputs(E, T, g.rmsd_cutoff, g.max_energy_diff):
-            dist['real_unstable_skipped'] += 1
-            ctx.count(('real', name, seed), False)
-            continue
-        opts = cg.fopts_lit(g.first_conformers, g.max_energy_diff, g.rmsd_cutoff)
-        model = 'filter_conformers (table_rmsd %s) %s %s' % (cg.qmat(T), cg.qlist(E), opts)
-        add_case('real/%d' % i, 'out_close2 %s %s (%s) %s' % (TOL_E, TOL_R, model, cg.out_lit(acc, en, rm)), pl, model)
-        dist['real_filter'] += 1
-        ctx.count(('real', name, ff, k, cutoff, ediff, first, seed), 1 < len(acc) < len(E))
-        if i < 2:
-            ctx.sample({'case': 'real/%d' % i, 'input': {x: pl[x] for x in ('smiles', 'forcefield', 'num_conf', 'first', 'rmsd_cutoff', 'max_energy_diff', 'seed')},
-                        'implementation': pl['impl']})
-
-    # ---------------------------------------------------------------- (c) the clauses RDKit owns: implementation-only differential runs
-    def gen_obs(mol, vals):
-        return {'smiles': cg.canon_smiles(mol), 'coords': [np.array(cf.GetPositions()).round(12).tolist() for cf in mol.GetConformers()],
-                'max_conformers': int(vals[0]), 'indices': [int(x) for x in vals[1]], 'energies': [float(x) for x in vals[2]],
-                'rmsds': np.asarray(vals[3]).tolist(), 'prop': mol.GetProp('_ConfEnergies') if mol.HasProp('_ConfEnergies') else None}
-
-    n_pipe = ctx.n(16, 120)
-    for i in range(n_pipe):
-        name, smi = cg.MOLS[(i * 7 + 3) % len(cg.MOLS)]
-        ff = rng.choice(['uff', 'uff', 'mmff94'])
-        nc = rng.choice([2, 3, 4, 5])
-        pm = rng.choice([1, 2, 3])
-        first = rng.choice([-1, -1, 1, 2, nc + 2])
-        cutoff = rng.choice([None, 0.4, 0.5, 1.0])
-        ediff = rng.choice([None, 1.0, 3.0])
-        seed = rng.randrange(1, 10 ** 6)
-        kw = dict(num_conf=nc, first=first, pool_multiplier=pm, rmsd_cutoff=cutoff, max_energy_diff=ediff, forcefield=ff, seed=seed)
-        pl = dict(kw, stream='pipeline', molecule=name, smiles=smi)
-        src = mol_from_smiles(smi, name)
-        sig0 = cg.mol_signature(src)
-        g = G.ConformerGenerator(get_values=True, sparse_rmsd=False, **kw)
-        mol1, v1 = g.generate_conformers(src)
-        o1 = gen_obs(mol1, v1)
-        # input molecule unmodified
-        if cg.mol_signature(src) != sig0:
-            found_input = True
-            ctx.fail('generate_conformers modified its input molecule', dict(pl, before=sig0, after=cg.mol_signature(src)), finding_key='input-modified')
-        # same molecule: heavy-atom graph and stereo; every returned conformer has the input's stereo when re-perceived from 3D
-        want = Chem.MolToSmiles(Chem.RemoveHs(Chem.Mol(src)), isomericSmiles=True)
-        if o1['smiles'] != want:
-            found_input = True
-            ctx.fail('returned molecule differs from the input (graph/stereo): %s vs %s' % (o1['smiles'], want), pl, finding_key='identity-changed')
-        for cf in mol1.GetConformers():
-            cp = Chem.Mol(mol1)
-            Chem.AssignStereochemistryFrom3D(cp, confId=cf.GetId(), replaceExistingTags=True)
-            if Chem.MolToSmiles(cp, isomericSmiles=True) != want:
-                found_input = True
-                ctx.fail('conformer %d has another stereochemistry in 3D than the input' % cf.GetId(), pl, finding_key='stereo-3d-changed')
-                break
-        # fixed seed reproduces exactly: a second, fresh generator
-        mol2, v2 = G.ConformerGenerator(get_values=True, sparse_rmsd=False, **kw).generate_conformers(mol_from_smiles(smi, name))
-        o2 = gen_obs(mol2, v2)
-        if o1 != o2:
-            found_input = True
-            ctx.fail('two seeded runs differ', dict(pl, first_run=o1, second_run=o2), finding_key='seed-not-reproducible')
-        # energies stored on the molecule = returned energies at 4 decimals
-        stored = get_conformer_energies_from_mol(mol1)
-        if stored is None or [('%.4f' % e) for e in o1['energies']] != o1['prop'].split('|') or len(stored) != mol1.GetNumConformers():
-            found_input = True
-            ctx.fail('energies stored on the molecule are not the returned ones at 4 decimals', dict(pl, run=o1), finding_key='stored-energies')
-        # the matrix returned = RMSDs re-measured on the returned conformers
-        T1 = cg.measure_rmsds(mol1)
-        n1 = mol1.GetNumConformers()
-        if any(abs(T1[min(a, b)][max(a, b)] - o1['rmsds'][a][b]) > 1e-4 for a in range(n1) for b in range(n1)):
-            found_input = True
-            ctx.fail('reported RMSD matrix is not the RMSD of the returned conformers', dict(pl, remeasured=T1, run=o1), finding_key='rmsd-matrix')
-        # end to end against the model on an independently rebuilt pool (same RDKit calls and seed, no e3fp code)
-        pool = pool_like_impl(smi, name, nc * pm, seed, ff)
-        E = cg.measure_energies(pool, ff)
-        T = cg.measure_rmsds(pool)
-        if stable_inputs(E, T, g.rmsd_cutoff, g.max_energy_diff):
-            opts = cg.fopts_lit(min(first, nc) if first != -1 else nc, g.max_energy_diff, g.rmsd_cutoff)
-            model = 'filter_conformers (table_rmsd %s) %s %s' % (cg.qmat(T), cg.qlist(E), opts)
-            add_case('pipe/%d' % i, 'out_close2 %s %s (%s) %s' % (TOL_E, TOL_R, model, cg.out_lit(o1['indices'], o1['energies'], o1['rmsds'])),
-                     dict(pl, energies_remeasured=E, rmsd_remeasured=T, impl={x: o1[x] for x in ('indices', 'energies', 'rmsds', 'max_conformers')}), model)
-        else:
-            dist['real_unstable_skipped'] += 1
-        cap = min(first, nc) if first != -1 else nc
-        dist['first_above_num_conf'] += (first > nc)
-        if len(o1['indices']) > cap or o1['max_conformers'] != nc:
-            found_input = True
-            ctx.fail('more conformers than requested (first/maximum)', dict(pl, run=o1), finding_key='count')
-        dist['real_pipeline'] += 1
-        ctx.count(('pipe', name, json.dumps(kw, sort_keys=True)), len(o1['indices']) > 1)
-
-    # generator reuse across a sequence of molecules = fresh generator per molecule
+        md = take('options', str(i), draw_options(rng), sample=i < 1)
+        dist['ctor_errors_expected'] += md.stats.get('ctor_error', 0)
+    for i in range(ctx.n(24, 180)):
+        p = draw_real(rng, i)
+        bump(dist['by_forcefield'], p['forcefield'])
+        take('real-filter', str(i), p, sample=i < 1)
+    for i in range(ctx.n(16, 120)):
+        md = take('pipeline', str(i), draw_pipeline(rng, i), sample=i < 1)
+        dist['empty_pool_runs'] += md.stats.get('empty_pool', 0)
+        dist['first_above_num_conf'] += md.stats.get('first_above_num_conf', 0)
     for i in range(ctx.n(6, 40)):
-        seq = [cg.MOLS[rng.randrange(len(cg.MOLS))] for _ in range(rng.choice([2, 3, 4]))]
-        if rng.random() < 0.5:
-            seq.insert(rng.randrange(len(seq) + 1), ('decane', 'CCCCCCCCCCCC'))     # 9 rotatable bonds: resolves 200 when num_conf = -1
-        nc = rng.choice([-1, 3, 4])
-        kw = dict(num_conf=nc, first=rng.choice([-1, 2]) if nc != -1 else 2, pool_multiplier=1, rmsd_cutoff=rng.choice([0.5, 1.0]),
-                  max_energy_diff=rng.choice([None, 2.0]), forcefield='uff', seed=rng.randrange(1, 10 ** 6))
-        if nc == -1:
-            seq = seq[:2]      # 50/200 conformers per molecule: keep it short
-        shared = G.ConformerGenerator(get_values=True, sparse_rmsd=False, **kw)
-        for name, smi in seq:
-            a = gen_obs(*shared.generate_conformers(mol_from_smiles(smi, name)))
-            b = gen_obs(*G.ConformerGenerator(get_values=True, sparse_rmsd=False, **kw).generate_conformers(mol_from_smiles(smi, name)))
-            if a != b:
-                found_input = True
-                ctx.fail('a reused generator returns something else than a fresh one for %s' % name,
-                         dict(kw, stream='reuse', sequence=seq, reused=a, fresh=b), finding_key='reuse:result')
-        dist['reuse_sequences'] += 1
-        ctx.count(('reuse', json.dumps(kw, sort_keys=True), str(seq)), True)
-
-    # the wrapper e3fp.conformer.generate.generate_conformers
+        take('reuse', str(i), draw_reuse(rng))
     for i in range(ctx.n(6, 40)):
-        name, smi = cg.MOLS[rng.randrange(len(cg.MOLS))]
-        kw = dict(num_conf=rng.choice([3, 4, 5]), first=rng.choice([-1, 2]), pool_multiplier=rng.choice([1, 2]), rmsd_cutoff=rng.choice([0.4, 0.8]),
-                  max_energy_diff=rng.choice([None, 3.0]), forcefield=rng.choice(['uff', 'mmff94']), seed=rng.randrange(1, 10 ** 6))
-        pl = dict(kw, stream='wrapper', molecule=name, smiles=smi)
-        src = mol_from_smiles(smi, name)
-        sig0 = cg.mol_signature(src)
-        r = GEN.generate_conformers(src, standardise=False, save=False, **kw)
-        if r is False:
-            found_input = True
-            ctx.fail('wrapper generate_conformers returned False', pl, finding_key='wrapper:false')
-            continue
-        mol, rname, nrot, maxc, idx, en, sparse = r
-        full_mol, v = G.ConformerGenerator(get_values=True, sparse_rmsd=False, **kw).generate_conformers(mol_from_smiles(smi, name))
-        full = gen_obs(full_mol, v)
-        stored = get_conformer_energies_from_mol(mol)
-        problems = []
-        if rname != name:
-            problems.append('name')
-        if nrot != AllChem.CalcNumRotatableBonds(src):
-            problems.append('nrot')
-        if maxc != kw['num_conf']:
-            problems.append('max_conformers')
-        if [int(x) for x in idx] != full['indices'] or [float(x) for x in en] != full['energies']:
-            problems.append('indices/energies differ from the generator run with the same seed')
-        if mol.GetNumConformers() != len(idx) or len(en) != len(idx):
-            problems.append('lengths')
-        if stored is None or ['%.4f' % e for e in en] != ['%.4f' % e for e in stored]:
-            problems.append('stored energies')
-        if cg.mol_signature(src) != sig0:
-            problems.append('input modified')
-        if problems:
-            found_input = True
-            ctx.fail('wrapper result inconsistent: ' + '; '.join(problems), dict(pl, impl={'indices': [int(x) for x in idx], 'energies': [float(x) for x in en]}),
-                     finding_key='wrapper:' + problems[0])
-        add_case('wrap/%d' % i, 'q_list_eqb (triu %s 1%%nat) %s' % (cg.qmat(full['rmsds']), cg.qlist([float(x) for x in sparse])),
-                 dict(pl, full=full['rmsds'], sparse=[float(x) for x in sparse]), 'triu %s 1%%nat' % cg.qmat(full['rmsds']))
-        dist['wrapper'] += 1
-        ctx.count(('wrap', name, json.dumps(kw, sort_keys=True)), len(idx) > 2)
+        take('wrapper', str(i), draw_wrapper(rng))
 
-    def fkey(k, pl):
-        return 'model-vs-code:%s' % pl.get('stream')
-    nbad = core.compare_cases(ctx, cases, IMPORTS, 'C13 conformer selection', payloads, model_expr=mexpr, finding_key_of=fkey)
-    found_input = found_input or nbad > 0
+    # a stream that compares nothing proves nothing
+    for stream in MAKERS:
+        if not dist['cases_by_stream'].get(stream):
+            ctx.fail('stream %s produced no comparable case (%d parameter sets drawn, skipped: %s)' % (stream, dist['params_by_stream'].get(stream, 0),
+                     {k: v for k, v in dist['skipped'].items() if k.startswith(stream)}), {'stream': stream}, no_input=True, kind='harness-error')
+
+    nbad = core.compare_cases(ctx, cases, IMPORTS, 'C13 conformer selection', payloads, model_expr=mexpr,
+                              finding_key_of=lambda k, pl: 'model-vs-code:%s' % pl.get('stream'))
+    found_input = found[0] or nbad > 0
     dist['accepted_count_hist'] = {str(k): v for k, v in sorted(dist['accepted_count_hist'].items())}
-    ctx.coverage['rule'] = ('(b) synthetic: real k-conformer molecule (k in 1..24), energies and RMSD table from a dyadic grid injected through the two oracle calls, '
-                            'options from grids hitting ties with the cut-off and the window edge; non-trivial = 1 < #accepted < k; distinct by full input. '
-                            '(d) constructor + option state over histories of molecules with 0..15 rotatable bonds. (a) filter_conformers on real pools with '
-                            'independently re-measured energies/RMSDs. (c) full pipeline, reuse and wrapper runs; non-trivial = more than one conformer returned')
+    ctx.coverage['rule'] = ('synthetic: real k-conformer molecule (k in 1..24, conformer ids = positions / shifted / scattered), energies and RMSD table from a dyadic '
+                            'grid injected through the two oracle calls, options from grids hitting ties with the cut-off and the window edge; non-trivial = '
+                            '1 < #accepted < k. options: constructor + option state over histories of molecules with 0..15 rotatable bonds. real-filter: '
+                            'filter_conformers on e3fp-built pools with independently re-measured energies/RMSDs. pipeline / reuse: generate_conformers against the '
+                            'model\'s `generate (after_history ..)` on pools rebuilt with RDKit only, incl. the empty-pool RuntimeError; plus seed, identity, '
+                            'input-unmodified and wrapper checks; non-trivial = more than one conformer returned. distinct by full parameter set; every skipped '
+                            'comparison is counted under input_distribution.skipped with its reason')
     ctx.coverage['input_distribution'] = dist
     ctx.coverage['trusted_base'] = ['RDKit (ETKDG embedding, UFF/MMFF94 minimisation and energies, GetBestRMS, AddHs/RemoveHs, conformer copying): oracles of the '
-                                    'model; their determinism under a seed and the identity of the molecule are exercised by stream (c) only (testing, not proof)']
+                                    'model; their determinism under a seed and the identity of the molecule are exercised by the pipeline/reuse/wrapper streams only '
+                                    '(testing, not proof)']
     ctx.assumptions += ['np.argsort returns a permutation that sorts the energies (any such permutation is covered by the theorems; the unstable default sort is '
                         'observed for k >= 17 with ties and fed to the model as observed)',
-                        'GetBestRMS is symmetric and zero on the diagonal (only needed by accepted_far / rmsd_reported_sym; measured asymmetry is below 1e-4)',
-                        'float comparisons equal exact rational comparisons: synthetic values are dyadic (exact); real cases within round-off of a threshold are skipped and counted',
+                        'GetBestRMS is symmetric and zero on the diagonal (needed by accepted_far / rmsd_reported_sym only): CHECKED on every real pool of this run, '
+                        'max deviation %.3g over %d pools, %d above %g' % (dist['getbestrms_max_asymmetry'], dist['real_pools_measured'],
+                                                                            dist['getbestrms_asymmetry_violations'], SYM_TOL),
+                        'float comparisons equal exact rational comparisons: synthetic values are dyadic (exact); real cases within round-off of a threshold are skipped '
+                        'and counted (input_distribution.skipped)',
                         'PARTIAL: seed reproducibility, input-unmodified, graph/stereo preservation and the wrapper are tests on %d RDKit runs, not theorems'
-                        % (dist['real_filter'] + dist['real_pipeline'] + dist['reuse_sequences'] + dist['wrapper'])]
+                        % sum(dist['params_by_stream'].get(s, 0) for s in ('real-filter', 'pipeline', 'reuse', 'wrapper'))]
     if not ok:
         core.report_broken_proof(ctx, res, found_input)
 
 
 def replay(ctx, path):
-    """Re-run a recorded case on the implementation (synthetic stream) and print model and implementation outputs."""
+    """Re-run a recorded case: the implementation from the recorded parameters, the model in Coq; exit 1 if they still disagree
+    or a direct clause is still violated."""
     d = json.load(open(path))
     c = d.get('case', {})
     print(json.dumps({k: v for k, v in d.items() if k != 'case'}, indent=1))
-    if c.get('stream') == 'synthetic':
-        import e3fp.conformer.generator as G
-        g, acc, en, rm, calls, copied_ok = run_synth(G, c)
-        print('input: k=%d E=%s first_conformers=%s cutoff_arg=%s ediff_arg=%s' % (c['k'], c['E'], c['first_conformers'], c['cutoff_arg'], c['ediff_arg']))
-        print('T =', c['T'])
-        print('implementation now: accepted=%s energies=%s rmsds=%s' % (acc, en, rm))
-        print('direct contract violations:', direct_contract(c, g, acc, en, rm))
-        expr, model = synth_expr(c, g, acc, en, rm)
-        print('model:', core.coq_eval_raw(model, IMPORTS, ctx.workdir)[-1500:])
-    else:
-        print(json.dumps(c, indent=1)[:6000])
-    return 0
+    stream = c.get('stream')
+    if stream not in MAKERS:
+        print(json.dumps(c, indent=1, default=str)[:6000])
+        print('no re-runnable case in this replay file (kind=%s)' % d.get('kind'))
+        return 1
+    params = {k: c[k] for k in PARAM_KEYS[stream] if k in c}
+    print('stream %s, parameters: %s' % (stream, json.dumps(params, default=str)[:3000]))
+    md = MAKERS[stream](params)
+    print('implementation now:', json.dumps(md.payload.get('impl'), default=str)[:3000])
+    bad = 0
+    for what, fk, extra in md.fails:
+        print('DIRECT VIOLATION (%s): %s' % (fk, what))
+        bad += 1
+    for why in md.skips:
+        print('comparison skipped:', why)
+    if md.cases:
+        results, logs = core.coq_eval_bools([(sub or 'case', expr) for sub, expr, _ in md.cases], IMPORTS, ctx.workdir + '/replay', shard=50)
+        for sub, expr, model in md.cases:
+            r = results.get(sub or 'case')
+            print('model = implementation on %s: %s' % (sub or 'case', r))
+            if r is not True:
+                bad += 1
+                print('model output:', core.coq_eval_raw(model, IMPORTS, ctx.workdir + '/raw')[-3000:])
+    print('REPLAY %s' % ('FAILS' if bad else 'passes'))
+    import shutil
+    shutil.rmtree(ctx.workdir, ignore_errors=True)
+    return 1 if bad else 0
